@@ -196,7 +196,10 @@ pub fn check_plain_with(txt: &str, ep: &EnergyPerformance, slack_rel: f64) -> Ch
             }
         }) {
             Some(g) => g,
-            None => return Err(Failure::new("plain_missing", format!("no `{}` line in the report", key))),
+            // the headline figures the statement names must be there; the other lines of the template are
+            // checked when the report has them under the label known today (a reworded label is not a defect)
+            None if ["Area_ref", "k_exp", "C_ep [kWh/", "E_CO2 [kg_", "RER"].contains(&key) => return Err(Failure::new("plain_missing", format!("no `{}` line in the report", key))),
+            None => return Ok(()),
         };
         ensure!(got.len() >= want.len(), "plain_missing", "line `{}` carries {} numbers, expected {}", key, got.len(), want.len());
         let mag = want.iter().fold(0.0f64, |m, x| m.max(x.abs()));
@@ -263,18 +266,53 @@ pub fn check_plain_with(txt: &str, ep: &EnergyPerformance, slack_rel: f64) -> Ch
         ("step A by service", rsv(&bal.we.a_by_srv)),
         ("step B by service", rsv(&bal.we.b_by_srv)),
     ];
-    ensure!(r.lists.len() == expected.len(), "plain_lists", "the report has {} tables, expected {}", r.lists.len(), expected.len());
-    for ((name, mut want), (hdr, got)) in expected.into_iter().zip(r.lists.iter()) {
-        want.sort_by(|a, b| format!("{}:", a.0).cmp(&format!("{}:", b.0)));
-        let gk: Vec<&String> = got.iter().map(|g| &g.0).collect();
-        let wk: Vec<&String> = want.iter().map(|g| &g.0).collect();
-        ensure!(gk == wk, "plain_list_keys", "table `{}` ({}) lists {:?} but the result's keys, sorted, are {:?}", hdr, name, gk, wk);
-        for (g, w) in got.iter().zip(want.iter()) {
-            ensure!(g.1.len() >= w.1.len(), "plain_value", "table `{}` entry {} carries {} numbers", hdr, g.0, g.1.len());
-            let mag = w.1.iter().fold(0.0f64, |m, x| m.max(x.abs()));
-            for i in 0..w.1.len() {
-                ensure!(near(g.1[i], w.1[i], 0.01 + slack_rel * mag), "plain_value", "table `{}` entry {} number {} is {} but the result holds {}", hdr, g.0, i, g.1[i], w.1[i]);
+    // every table of the result is stated by a table of the report with the same keys and numbers (the order
+    // of the tables and of their rows is only required not to vary between runs, which is checked apart; the
+    // report may carry further tables)
+    let mut used = vec![false; r.lists.len()];
+    for (name, want) in expected.into_iter() {
+        let wk: std::collections::BTreeSet<&String> = want.iter().map(|g| &g.0).collect();
+        let matches = |got: &Vec<(String, Vec<f64>)>| -> Result<(), String> {
+            let gk: std::collections::BTreeSet<&String> = got.iter().map(|g| &g.0).collect();
+            if gk != wk || got.len() != want.len() {
+                return Err(format!("lists {:?} but the result's keys are {:?}", got.iter().map(|g| &g.0).collect::<Vec<_>>(), wk));
             }
+            for w in want.iter() {
+                let g = got.iter().find(|g| g.0 == w.0).unwrap();
+                if g.1.len() < w.1.len() {
+                    return Err(format!("entry {} carries {} numbers", g.0, g.1.len()));
+                }
+                let mag = w.1.iter().fold(0.0f64, |m, x| m.max(x.abs()));
+                for i in 0..w.1.len() {
+                    if !near(g.1[i], w.1[i], 0.01 + slack_rel * mag) {
+                        return Err(format!("entry {} number {} is {} but the result holds {}", g.0, i, g.1[i], w.1[i]));
+                    }
+                }
+            }
+            Ok(())
+        };
+        let mut why = String::from("the report has no further table");
+        let mut hit = None;
+        for i in 0..r.lists.len() {
+            if used[i] {
+                continue;
+            }
+            match matches(&r.lists[i].1) {
+                Ok(()) => {
+                    hit = Some(i);
+                    break;
+                }
+                Err(e) => {
+                    // keep the explanation of the nearest candidate: same keys, other numbers
+                    if e.starts_with("entry") || why.starts_with("the report has no") {
+                        why = format!("table `{}` {}", r.lists[i].0, e);
+                    }
+                }
+            }
+        }
+        match hit {
+            Some(i) => used[i] = true,
+            None => fail!(if why.contains("number") { "plain_value" } else { "plain_list_keys" }, "no table of the report states `{}` of the result: {}", name, why),
         }
     }
     Ok(())
